@@ -38,7 +38,8 @@ def run(P, R, tier):
     from ..engines.dim import fmt
     r1 = rets.get(("gmm.ll1", False))
     rb = rets.get(("gmm.ll", False))
-    R.check(r1 is not None and rb is not None and fmt(r1) == fmt(rb), "SHAPE.single", "gmm:log_likelihood", f"single vector -> {fmt(r1)}, batch -> {fmt(rb)}", "a single sample is scored as a batch of one", "a single vector is not scored like the same sample inside a batch (atleast_2d missing on this path)")
+    _one = (lambda v: v.copy(sh=tuple("N" if a == "1" else a for a in v.sh)) if v is not None and v.is_numlike and v.sh is not None else v)  # a batch of one: the sample axis has length 1
+    R.check(r1 is not None and rb is not None and fmt(_one(r1)) == fmt(rb), "SHAPE.single", "gmm:log_likelihood", f"single vector -> {fmt(r1)}, batch -> {fmt(rb)}", "a single sample is scored as a batch of one", "a single vector is not scored like the same sample inside a batch (atleast_2d missing on this path)")
     # DEP: must-depend edges of the weighted log-likelihood
     f = P.func("gmm:log_weighted_likelihood")
     R.analysed(f)
